@@ -4,6 +4,7 @@ Refinement of the reference machine (KV.Spec) by the distributed state machine (
 -/
 import KfacVerif.Model.Spec
 import KfacVerif.Model.PrecondExt
+import KfacVerif.Lemmas.Refine9
 
 namespace KV.Refine
 open KV KV.Precond KV.Spec
@@ -40,6 +41,12 @@ theorem refines (c : Cfg) (hc : CfgOK2 c) (h : Hyper) (ops : List Op)
     (∀ r l, r < c.world → l < c.layers.length →
       ((getL s r l).aFactor.map (·.val)) = (getS t l).aFactor ∧
       ((getL s r l).gFactor.map (·.val)) = (getS t l).gFactor) := by
-  sorry
+  have hc' : CfgOK c :=
+    ⟨hc.world_pos, hc.accum_pos, hc.workers_lt, hc.invA_mem, hc.invG_mem, hc.prediv_coloc, hc.nobi_single,
+     hc.nobg_all, hc.recv_lt, hc.src_recv, hc.src_worker, hc.rows⟩
+  have hrel := refines_aux c hc' h ops hne
+  refine ⟨hrel.steps, hrel.defs, hrel.out, fun r l hr hl => ?_⟩
+  have cr := (hrel.lay l hl).2 r hr
+  exact ⟨cr.aFactor, cr.gFactor⟩
 
 end KV.Refine
